@@ -1134,11 +1134,11 @@ Proof.
   cbn [end_shape]. split; [now apply (item_name_not_end rd u seen)|exact IH].
 Qed.
 
-Lemma frames_length comp cs : forall c, frames_ok c cs = true -> comp = c -> (length cs <= length (bs_frame_all c cs))%nat.
+Lemma frames_length cs : forall c, frames_ok c cs = true -> (length cs <= length (bs_frame_all c cs))%nat.
 Proof.
-  intros c. revert c. induction cs as [|x r IH]; intros c H _; [cbn; lia|].
+  induction cs as [|x r IH]; intros c H; [cbn; lia|].
   cbn [frames_ok bs_frame_all] in *. apply andb_true_iff in H. destruct H as [H1 H2].
-  rewrite app_length. specialize (IH _ H2 eq_refl).
+  rewrite app_length. specialize (IH _ H2).
   pose proof (frame_nonempty _ x [] H1) as Hne. rewrite app_nil_r in Hne.
   destruct (bs_frame _ x); [contradiction|]. cbn [length]. lia.
 Qed.
@@ -1162,7 +1162,7 @@ Proof.
     eapply end_shape_items.
     - rewrite <- !app_assoc. rewrite <- canonical_items. exact Hok.
     - rewrite <- !app_assoc. apply canonical_pre_no_end. }
-  unfold bs_deframe. rewrite (deframe_frames chunks comp _ ltac:(pose proof (frames_length comp chunks comp Hsz eq_refl); lia) Hshape Hsz).
+  unfold bs_deframe. rewrite (deframe_frames chunks comp (S (length (bs_frame_all comp chunks))) ltac:(pose proof (frames_length chunks comp Hsz); lia) Hshape Hsz).
   cbn [rbind]. rewrite raws_end_uncompressed. cbn [negb]. rewrite inflate_raws. cbn [rbind].
   unfold bspec_decode_chunks. unfold chunks. rewrite (bs_items_roundtrip rd u items [] Hok). cbn [rbind].
   apply assemble_canonical. exact Hwf.
@@ -1174,3 +1174,150 @@ Corollary bspec_roundtrip_uncompressed rd u f :
   bs_sizes_ok rd (mkChoices (bs_canonical_order f) [] u) f = true ->
   bspec_decode rd (bspec_encode rd (mkChoices (bs_canonical_order f) [] u) f) = Ok f.
 Proof. apply bspec_roundtrip. Qed.
+
+(* ------------------------------------------------------------------------------------------ *)
+(* 9. structural clauses that hold for every file the document decoder accepts                  *)
+(* ------------------------------------------------------------------------------------------ *)
+Lemma opt_single_ok {A} code (l : list A) o : opt_single code l = Ok o -> (length l <= 1)%nat /\ l = match o with Some a => [a] | None => [] end.
+Proof.
+  destruct l as [|a [|b r]]; cbn; intros H; try discriminate; injection H as <-; split; (lia || reflexivity).
+Qed.
+
+(* header counts match the body; one INST per class id; one PRNT, at most one META / SSTR; END is the last chunk and only the last *)
+Theorem decode_chunks_clauses rd hdr chunks f : bspec_decode_chunks rd hdr chunks = Ok f ->
+  exists items, bs_parse_items rd [] chunks = Ok items /\
+    end_last items = true /\ cl_header_counts hdr items = true /\ cl_unique_class_ids items = true /\
+    bs_prnts items = [bf_prnt f] /\ (length (bs_metas items) <= 1)%nat /\ (length (bs_sstrs items) <= 1)%nat /\
+    bf_classes f = bs_insts items /\ bf_props f = bs_props items.
+Proof.
+  unfold bspec_decode_chunks. destruct (bs_parse_items rd [] chunks) as [items| | |]; cbn [rbind]; try discriminate.
+  intros H. exists items. split; [reflexivity|]. unfold bs_assemble in H.
+  destruct (end_last items); cbn [negb] in H; [|destruct (existsb is_end items); discriminate].
+  destruct (opt_single BS_DUP_CHUNK (bs_metas items)) as [m| | |] eqn:Em; cbn [rbind] in H; try discriminate.
+  destruct (opt_single BS_DUP_CHUNK (bs_sstrs items)) as [s| | |] eqn:Es; cbn [rbind] in H; try discriminate.
+  destruct (opt_single BS_DUP_CHUNK (bs_prnts items)) as [p| | |] eqn:Ep; cbn [rbind] in H; try discriminate.
+  destruct p as [rows|]; [|discriminate].
+  destruct (cl_unique_class_ids items); cbn [negb] in H; [|discriminate].
+  destruct (cl_header_counts hdr items); cbn [negb] in H; [|discriminate].
+  injection H as <-. cbn [bf_prnt bf_classes bf_props].
+  apply opt_single_ok in Em, Es, Ep. destruct Em as [Em _], Es as [Es _], Ep as [_ Ep].
+  repeat split; assumption.
+Qed.
+
+(* ---- chunk length fields *)
+Definition raw_lengths_ok (c : bs_raw) : Prop :=
+  N.of_nat (length (rw_data c)) = (if N.eqb (rw_clen c) 0 then rw_ulen c else rw_clen c).
+
+Lemma read_exact_N_len n b h t : read_exact_N n b = Ok (h, t) -> N.of_nat (length h) = n.
+Proof.
+  unfold read_exact_N. destruct (N.ltb _ _); [discriminate|]. intros H. apply read_exact_ok in H.
+  destruct H as [H _]. rewrite H. apply N2Nat.id.
+Qed.
+
+Lemma p_raw_lengths b c rest : p_raw b = Ok (c, rest) -> raw_lengths_ok c.
+Proof.
+  unfold p_raw. intros H.
+  apply pbind_ok in H. destruct H as [name [b1 [_ H]]].
+  apply pbind_ok in H. destruct H as [cl [b2 [_ H]]].
+  apply pbind_ok in H. destruct H as [ul [b3 [_ H]]].
+  apply pbind_ok in H. destruct H as [rs [b4 [_ H]]].
+  destruct (negb (N.eqb rs 0)); [discriminate|].
+  apply pbind_ok in H. destruct H as [data [b5 [Hd H]]].
+  unfold pret in H. injection H as <- _. unfold raw_lengths_ok. cbn [rw_data rw_clen rw_ulen].
+  now apply read_exact_N_len in Hd.
+Qed.
+
+Lemma deframe_props fuel : forall b raws, bs_deframe_loop fuel b = Ok raws ->
+  Forall raw_lengths_ok raws /\ exists pre c, raws = pre ++ [c] /\ bytes_eqb (rw_name c) NAME_END = true.
+Proof.
+  induction fuel as [|f IH]; intros b raws H; [discriminate|].
+  cbn [bs_deframe_loop] in H. destruct b as [|x b]; [discriminate|].
+  destruct (p_raw (x :: b)) as [[c rest]| | |] eqn:E; try discriminate.
+  pose proof (p_raw_lengths _ _ _ E) as Hc.
+  destruct (bytes_eqb (rw_name c) NAME_END) eqn:En.
+  - destruct rest; [|discriminate]. injection H as <-. split; [now constructor|]. exists [], c. now split.
+  - destruct (bs_deframe_loop f rest) as [r| | |] eqn:Er; cbn [rbind] in H; try discriminate.
+    injection H as <-. destruct (IH _ _ Er) as [Hf [pre [c' [-> Hn]]]].
+    split; [now constructor|]. exists (c :: pre), c'. now split.
+Qed.
+
+Lemma inflate_all_each zstd raws : forall chunks, bs_inflate_all zstd raws = Ok chunks ->
+  Forall2 (fun c ch => fst ch = rw_name c /\ bs_inflate zstd c = Ok (snd ch)) raws chunks.
+Proof.
+  induction raws as [|c r IH]; intros chunks H; cbn [bs_inflate_all] in H.
+  - injection H as <-. constructor.
+  - destruct (bs_inflate zstd c) as [d| | |] eqn:Ed; cbn [rbind] in H; try discriminate.
+    destruct (bs_inflate_all zstd r) as [rest| | |] eqn:Er; cbn [rbind] in H; try discriminate.
+    injection H as <-. constructor; [now split|now apply IH].
+Qed.
+
+Lemma inflate_len zstd c d : bs_inflate zstd c = Ok d -> N.eqb (rw_clen c) 0 = false -> N.of_nat (length d) = rw_ulen c.
+Proof.
+  unfold bs_inflate. intros H E. rewrite E in H.
+  destruct (bytes_eqb (firstn 4 (rw_data c)) ZSTD_MAGIC).
+  - destruct (zstd (rw_data c)) as [r|]; [|discriminate]. destruct (N.eqb _ _) eqn:El; [|discriminate].
+    injection H as <-. now apply N.eqb_eq.
+  - now apply lz4_inflate_length in H.
+Qed.
+
+Lemma chunk_lengths_hold zstd raws chunks : Forall raw_lengths_ok raws -> bs_inflate_all zstd raws = Ok chunks ->
+  cl_chunk_lengths zstd raws = true.
+Proof.
+  intros Hf Hi. apply inflate_all_each in Hi. unfold cl_chunk_lengths. apply forallb_forall. intros c Hc.
+  rewrite Forall_forall in Hf. specialize (Hf c Hc). unfold raw_lengths_ok in Hf.
+  assert (exists d, bs_inflate zstd c = Ok d) as [d Hd].
+  { clear -Hi Hc. induction Hi as [|c' ch r chs [_ H] _ IH]; [contradiction|]. destruct Hc as [->|Hc]; [eauto|now apply IH]. }
+  destruct (N.eqb (rw_clen c) 0) eqn:E.
+  - now apply N.eqb_eq.
+  - rewrite Hd. apply andb_true_iff. split; apply N.eqb_eq; [exact Hf|now apply (inflate_len zstd c d)].
+Qed.
+
+Lemma parse_items_each rd chunks : forall seen items, bs_parse_items rd seen chunks = Ok items ->
+  forall name data, In (name, data) chunks -> exists seen' it, bs_parse_item rd seen' name data = Ok it.
+Proof.
+  induction chunks as [|[n d] r IH]; intros seen items H name data Hin; [contradiction|].
+  cbn [bs_parse_items] in H.
+  destruct (bs_parse_item rd seen n d) as [it| | |] eqn:Ei; cbn [rbind] in H; try discriminate.
+  destruct (bs_parse_items rd (seen_add seen it) r) as [rest| | |] eqn:Er; cbn [rbind] in H; try discriminate.
+  destruct Hin as [Heq|Hin]; [injection Heq as -> ->; eauto|]. eapply IH; eauto.
+Qed.
+
+Lemma end_chunk_magic rd seen name data it :
+  bytes_eqb name NAME_END = true -> bs_parse_item rd seen name data = Ok it -> bytes_eqb data END_MAGIC = true.
+Proof.
+  intros Hn. apply bytes_eqb_eq in Hn. subst name. unfold bs_parse_item.
+  cbn [bytes_eqb NAME_END NAME_META NAME_SSTR NAME_INST NAME_PROP NAME_PRNT N.eqb Pos.eqb andb].
+  unfold p_endchunk. destruct (bytes_eqb data END_MAGIC); [reflexivity|discriminate].
+Qed.
+
+(* chunk length fields match the (de)compressed payloads; the file ends with the uncompressed END chunk holding `</roblox>` *)
+Theorem decode_gen_framing rd zstd b f : bspec_decode_gen rd zstd b = Ok f ->
+  exists hdr rest raws, p_header b = Ok (hdr, rest) /\ bs_deframe rest = Ok raws /\
+    cl_chunk_lengths zstd raws = true /\ cl_ends_with_end raws = true.
+Proof.
+  unfold bspec_decode_gen. destruct (p_header b) as [[hdr rest]| | |] eqn:Eh; try discriminate.
+  destruct (bs_deframe rest) as [raws| | |] eqn:Ed; cbn [rbind]; try discriminate.
+  destruct (forallb _ raws) eqn:Ee; cbn [negb]; [|discriminate].
+  destruct (bs_inflate_all zstd raws) as [chunks| | |] eqn:Ei; cbn [rbind]; try discriminate.
+  intros H. exists hdr, rest, raws. split; [reflexivity|]. split; [exact Ed|].
+  unfold bs_deframe in Ed. destruct (deframe_props _ _ _ Ed) as [Hlen [pre [c [-> Hn]]]].
+  split; [now apply (chunk_lengths_hold zstd _ chunks)|].
+  unfold cl_ends_with_end. rewrite rev_app_distr. cbn [rev app]. rewrite Hn. cbn [andb].
+  rewrite forallb_app in Ee. apply andb_true_iff in Ee. destruct Ee as [_ Ee]. cbn [forallb] in Ee.
+  rewrite Hn in Ee. cbn [negb orb andb] in Ee. rewrite andb_true_r in Ee. rewrite Ee. cbn [andb].
+  (* the payload of END *)
+  unfold bspec_decode_chunks in H. destruct (bs_parse_items rd [] chunks) as [items| | |] eqn:Ep; cbn [rbind] in H; try discriminate.
+  pose proof (inflate_all_each _ _ _ Ei) as Hall.
+  apply Forall2_app_inv_l in Hall. destruct Hall as [ch1 [ch2 [_ [Hlast ->]]]].
+  inversion Hlast as [|? ch ? ? [Hname Hinf] Hnil]; subst. inversion Hnil; subst.
+  unfold bs_inflate in Hinf. rewrite Ee in Hinf. injection Hinf as Hd.
+  destruct ch as [nm d]. cbn [fst snd] in *. subst.
+  destruct (parse_items_each rd _ _ _ Ep (rw_name c) (rw_data c) ltac:(apply in_or_app; right; now left)) as [seen' [it Hit]].
+  exact (end_chunk_magic rd seen' _ _ it Hn Hit).
+Qed.
+
+Print Assumptions bs_col_roundtrip.
+Print Assumptions bs_items_roundtrip.
+Print Assumptions bspec_roundtrip.
+Print Assumptions decode_chunks_clauses.
+Print Assumptions decode_gen_framing.
